@@ -126,3 +126,46 @@ def register(reg):
                                "implies(len(arg_of('_merge', 'lists')) > 0, not any(c3(b) is None for b in bases_of(cls)))"],
                  exit_hints=[('c3_def', {'c': 'cls', 'ls': "arg_of('_merge', 'lists')"}, 'optional'),
                              ('c3_def', {'c': 'cls', 'ls': '[bases_of(cls)]'})])
+
+    # ---- lookups along the linearisation (model.py) -----------------------------------------------------------------
+    # "a member not defined in a class is found in the first class of its linearisation that defines it; documentation of an
+    #  overriding member without docstring comes from the nearest class (in that order) that has one"
+    MD = 'pydoctor/model.py'
+    reg.shape('Documentable', {'name': 'Str', 'parent': 'RefN[Documentable]', 'contents': 'Map[Str,Ref[Documentable]]', 'docstring': 'Opt[Str]'})
+    reg.shape('CanContainImportsDocumentable', {}, bases=('Documentable',))
+    reg.shape('Class', {'_mro': 'Opt[Seq[Ref[Class]]]'}, bases=('CanContainImportsDocumentable',))
+    reg.shape('Inheritable', {}, bases=('Documentable',))
+    reg.contract(MD, 'Class.mro', params={'include_external': 'Bool', 'include_self': 'Bool'}, returns='Seq[Ref[Class]]', raises={}, pure=True,
+                 reads=['_mro'], assumed=True,
+                 ensures=['implies(not include_external and include_self, result == lin(self))',
+                          'implies(not include_external and not include_self, result == lin(self)[1:])'],
+                 source='the documented classes of the stored linearisation (computed by compute_mro through mro.mro, verified above); '
+                        'without the class itself on request')
+    reg.contract(MD, 'Class.find', params={'name': 'Str'}, returns='RefN[Documentable]', raises={},
+                 ensures=[
+                     # the first class of the linearisation that defines the name wins
+                     'implies(result is None, all(name not in lin(self)[k].contents for k in range(len(lin(self)))))',
+                     'implies(result is not None, any(name in lin(self)[k].contents and lin(self)[k].contents[name] == result and '
+                     'all(name not in lin(self)[j].contents for j in range(k)) for k in range(len(lin(self)))))'],
+                 loops={0: Loop(index='i', invariant=['all(name not in lin(self)[j].contents for j in range(i))'])})
+    reg.contract(MD, 'Inheritable.docsources', returns='Seq[Ref[Documentable]]', raises={},
+                 requires=['self.parent is not None'],
+                 ensures=[
+                     # the object itself first, then the same-named members of the classes after the parent in its linearisation, in that order
+                     'len(result) >= 1 and result[0] == self',
+                     'implies(not isinstance(self.parent, Class), len(result) == 1)',
+                     'implies(isinstance(self.parent, Class), result == [self] + picks(lin(as_class(self.parent))[1:], self.name))'],
+                 loops={0: Loop(index='i', invariant=[
+                     # remaining-work form
+                     'yielded + picks(lin(as_class(self.parent))[1:][i:], self.name) == [self] + picks(lin(as_class(self.parent))[1:], self.name)'])})
+    # the documentation of an object: the first of its sources that has a docstring at all decides (an empty one means undocumented)
+    reg.contract(MD, 'Documentable.docsources', returns='Seq[Ref[Documentable]]', raises={}, pure=True,
+                 reads=['name', 'parent', 'contents', '_mro'], assumed=True,
+                 source='dynamic dispatch: Documentable yields itself, Inheritable is verified above, zope mix-ins append interface members')
+    DS = 'obj.docsources()'
+    reg.contract(MD, 'get_docstring', params={'obj': 'Ref[Documentable]'}, returns='Tuple[Opt[Str],RefN[Documentable]]', raises={},
+                 ensures=[f'implies(result[1] is None, result[0] is None and all({DS}[k].docstring is None for k in range(len({DS}))))',
+                          f'implies(result[1] is not None, any({DS}[k] == result[1] and {DS}[k].docstring is not None and '
+                          f'all({DS}[j].docstring is None for j in range(k)) and '
+                          f"result[0] == ({DS}[k].docstring if {DS}[k].docstring != '' else None) for k in range(len({DS}))))"],
+                 loops={0: Loop(index='i', invariant=[f'all({DS}[j].docstring is None for j in range(i))'])})
